@@ -16,6 +16,8 @@ tt = None
 def setup(ctx):
     global tt
     tt = arm_tt(ctx)
+    gen.ALIAS = 0.12
+    gen.PROV = 0.25  # a quarter of the generated operands come with a history of library operations (gen.provenance)
 
 
 def vector_tt(rng):
@@ -41,12 +43,16 @@ def vector_tt(rng):
     if sc != 1.0:
         gen.apply_scale(cores, rng, sc)
         kind += '_scaled'
-    return tt.TT(cores), kind
+    t = tt.TT(cores)
+    if rng.random() < 0.5:
+        t = gen.provenance(rng, t)
+        kind += '_with_history'
+    return t, kind
 
 
 def clone(t):
     with probe.oracle():
-        return tt.TT([c.copy() for c in t.cores])
+        return t.copy() if (t.order + len(t.cores[0].ravel())) % 2 else tt.TT([c.copy() for c in t.cores])  # (copy() carries along whatever the object carries)
 
 
 def w_svd(ctx, rng, idx):
